@@ -126,8 +126,10 @@ CLAIMED["C09"] = dict(
          "fails the machine (C09_one_outcome, C09_unhandled_error_status, C09_handled_error_keeps_running, C09_missing_service_is_fatal). 'A completion from an earlier activation is ignored' is refuted "
          "with a kernel-checked witness (C09_current_activation_only_refuted = finding F9); tasks leaked by a rolled-back entry are finding F19. "
          "Tied to the code by K-macro with scripted services (duration, outcome, value) on the virtual clock, both engines; real coroutine "
-         "scheduling / thread pools are outside the model. TIE T: that a state's services are cancelled BEFORE its exit actions run is read off the source - the effect skeleton of _exit_states, extracted from both engines' copies on every run, interpreted over the model's effect primitives, is the model's exit_states (C09_exit_order_is_the_source_async / _sync).",
-    technique="Coq proof over executable service-bookkeeping model + vm_compute correspondence on a virtual clock + source-extracted exit skeleton (tie T)",
+         "scheduling / thread pools are outside the model. TIE T: _has_error_handler, the test both engines consult before they put the machine into the "
+         "error status, is re-translated from the current source on every run and proved to be the `handled` flag every invoked service is armed with "
+         "(C09_handled_test_is_the_source, C09_async / _sync_service_carries_the_source_test, C09_unhandled_per_source_test). TIE T: that a state's services are cancelled BEFORE its exit actions run is read off the source - the effect skeleton of _exit_states, extracted from both engines' copies on every run, interpreted over the model's effect primitives, is the model's exit_states (C09_exit_order_is_the_source_async / _sync).",
+    technique="Coq proof over executable service-bookkeeping model + vm_compute correspondence on a virtual clock + source-extracted exit skeleton, schedule skeleton and handled-test (tie T)",
     design_ref="DESIGN.md section 5 C09")
 CLAIMED["C11"] = dict(
     category="proof",
